@@ -349,6 +349,9 @@ func slice(i *interpreter, x, lo, hi, max value) value {
 func lookup(i *interpreter, instr *ssa.Lookup, x, idx value) value {
 	switch x := x.(type) { // map
 	case *omap:
+		if i.acc != nil && x != nil {
+			i.logAccess(x, false)
+		}
 		v, ok := x.lookup(i, idx)
 		if !ok {
 			v = zero(instr.X.Type().Underlying().(*types.Map).Elem())
@@ -932,6 +935,9 @@ func unop(i *interpreter, instr *ssa.UnOp, x value) value {
 		if sp, ok := x.(*symptr); ok {
 			return i.symLoad(sp)
 		}
+		if i.acc != nil {
+			i.logAccess(x.(*value), false)
+		}
 		return load(deref(instr.X.Type()), x.(*value))
 	case token.NOT:
 		return !x.(bool)
@@ -1039,6 +1045,9 @@ func callBuiltin(caller *frame, callpos token.Pos, fn *ssa.Builtin, args []value
 	case "delete": // delete(map[K]value, K)
 		switch m := args[0].(type) {
 		case *omap:
+			if i.acc != nil && m != nil {
+				i.logAccess(m, true)
+			}
 			m.delete(i, args[1])
 		default:
 			panic(fmt.Sprintf("illegal map type: %T", m))
@@ -1160,6 +1169,9 @@ func callBuiltin(caller *frame, callpos token.Pos, fn *ssa.Builtin, args []value
 func rangeIter(i *interpreter, x value, t types.Type) iter {
 	switch x := x.(type) {
 	case *omap:
+		if i.acc != nil && x != nil {
+			i.logAccess(x, false)
+		}
 		return &omapIter{m: x}
 	case string:
 		return &stringIter{Reader: strings.NewReader(x)}
